@@ -6407,7 +6407,11 @@ func ruleYamlDecodedStrictly(c *core.Ctx) {
 				n++
 				key := fmt.Sprintf("%s/Node.DecodeWithOptions#%d", c.FuncName(d), n)
 				strict := false
-				if cl, ok := ast.Unparen(ce.Args[1]).(*ast.CompositeLit); ok {
+				opt := ast.Unparen(ce.Args[1])
+				if id, ok := opt.(*ast.Ident); ok {
+					opt = ast.Unparen(singleDefRHS(info, d.Body, id)) // strict := yaml.DecodeOptions{KnownFields: true}
+				}
+				if cl, ok := opt.(*ast.CompositeLit); ok {
 					for _, e := range cl.Elts {
 						if kv, ok := e.(*ast.KeyValueExpr); ok && types.ExprString(kv.Key) == "KnownFields" {
 							if tv, ok := info.Types[kv.Value]; ok && tv.Value != nil && constant.BoolVal(tv.Value) {
@@ -6465,14 +6469,24 @@ func ruleKeptFilesAreRecorded(c *core.Ctx) {
 			continue
 		}
 		removes := false
-		ast.Inspect(d.Body, func(n ast.Node) bool {
-			if ce, ok := n.(*ast.CallExpr); ok {
-				if f := core.Callee(info, ce); f != nil && (core.FullName(f) == "os.Remove" || core.FullName(f) == "os.RemoveAll") {
-					removes = true
+		var reachesRemove func(body ast.Node, depth int)
+		reachesRemove = func(body ast.Node, depth int) {
+			ast.Inspect(body, func(n ast.Node) bool {
+				if ce, ok := n.(*ast.CallExpr); ok && !removes {
+					if f := core.Callee(info, ce); f != nil {
+						if core.FullName(f) == "os.Remove" || core.FullName(f) == "os.RemoveAll" {
+							removes = true
+						} else if depth < 2 && f.Pkg() == p.Types {
+							if fd := c.Decl(f); fd != nil && fd.Body != nil {
+								reachesRemove(fd.Body, depth+1) // removal through a helper of the package
+							}
+						}
+					}
 				}
-			}
-			return true
-		})
+				return !removes
+			})
+		}
+		reachesRemove(d.Body, 0)
 		if !removes {
 			continue
 		}
@@ -6543,7 +6557,40 @@ func ruleKeptFilesAreRecorded(c *core.Ctx) {
 				return false
 			}
 			ret, ok := x.(*ast.ReturnStmt)
-			if !ok || len(ret.Results) == 0 || !isNilIdent(ret.Results[len(ret.Results)-1]) {
+			if !ok || len(ret.Results) == 0 {
+				return true
+			}
+			last := ret.Results[len(ret.Results)-1]
+			if !isNilIdent(last) {
+				// `return err` with err possibly nil: fine when the record sits behind `if err == nil {…}` (the paths
+				// around it carry an error) — anything else returned is an error value by construction
+				ev := identObj(info, last)
+				if ev == nil {
+					return true
+				}
+				guarded := false
+				ast.Inspect(d.Body, func(y ast.Node) bool {
+					ifs, ok := y.(*ast.IfStmt)
+					if !ok {
+						return true
+					}
+					be, ok := ast.Unparen(ifs.Cond).(*ast.BinaryExpr)
+					if !ok || be.Op != token.EQL || !(isNilIdent(be.Y) && identObj(info, be.X) == ev || isNilIdent(be.X) && identObj(info, be.Y) == ev) {
+						return true
+					}
+					for _, r := range records {
+						if r.Pos() >= ifs.Body.Pos() && r.End() <= ifs.Body.End() {
+							guarded = true
+						}
+					}
+					return true
+				})
+				// was the variable assigned from a call at all (an error that can be nil)?
+				if !guarded {
+					return true
+				}
+				n++
+				c.OK(rule, fmt.Sprintf("%s/return %s#%d", c.FuncName(d), ev.Name(), n), ret.Pos(), "the file is recorded exactly when `"+ev.Name()+"` is nil")
 				return true
 			}
 			n++
@@ -6765,6 +6812,17 @@ func ruleTemporaryBatchHasCapacity(c *core.Ctx) {
 	type helper struct {
 		f                  *types.Func
 		dest, plural, wrte int
+		pluralObj, wrteObj types.Object // when the flags are not parameters: the struct fields (or variables) they are read from
+	}
+	// the object a flag expression names: a variable, or the field of `x.flag`
+	flagObj := func(e ast.Expr) types.Object {
+		if sel, ok := ast.Unparen(e).(*ast.SelectorExpr); ok {
+			if v, ok := info.Uses[sel.Sel].(*types.Var); ok && v.IsField() {
+				return v
+			}
+			return nil
+		}
+		return identObj(info, e)
 	}
 	var helpers []helper
 	for _, d := range c.AllDecls() {
@@ -6813,12 +6871,90 @@ func ruleTemporaryBatchHasCapacity(c *core.Ctx) {
 		c.Undecided(rule, "anchor/ReadBlocksIntoVector", 0, "no function of cpp/binary emits ReadBlocksIntoVector into a destination parameter")
 		return
 	}
-	n := 0
-	for _, d := range c.AllDecls() {
-		if c.DeclPkg(d) != p || d.Body == nil {
-			continue
+	// wrappers: a function or method that hands one of its own parameters to a helper as the destination is a helper too
+	for changed := true; changed; {
+		changed = false
+		for _, d := range c.AllDecls() {
+			if c.DeclPkg(d) != p || d.Body == nil {
+				continue
+			}
+			self, _ := info.Defs[d.Name].(*types.Func)
+			known := false
+			for _, h := range helpers {
+				if h.f == self {
+					known = true
+				}
+			}
+			if known || self == nil {
+				continue
+			}
+			var params []types.Object
+			for _, fl := range d.Type.Params.List {
+				for _, nm := range fl.Names {
+					params = append(params, info.Defs[nm])
+				}
+			}
+			indexOf := func(e ast.Expr) int {
+				o := identObj(info, e)
+				for i, po := range params {
+					if po == o && o != nil {
+						return i
+					}
+				}
+				return -1
+			}
+			ast.Inspect(d.Body, func(n ast.Node) bool {
+				ce, ok := n.(*ast.CallExpr)
+				if !ok || known {
+					return true
+				}
+				f := core.Callee(info, ce)
+				for _, h := range helpers {
+					if f == nil || h.f != f || h.dest >= len(ce.Args) {
+						continue
+					}
+					if di := indexOf(ce.Args[h.dest]); di >= 0 {
+						w := helper{f: self, dest: di, plural: -1, wrte: -1, pluralObj: h.pluralObj, wrteObj: h.wrteObj}
+						if h.plural >= 0 && h.plural < len(ce.Args) {
+							if w.plural = indexOf(ce.Args[h.plural]); w.plural < 0 {
+								w.pluralObj = flagObj(ce.Args[h.plural])
+							}
+						}
+						if h.wrte >= 0 && h.wrte < len(ce.Args) {
+							if w.wrte = indexOf(ce.Args[h.wrte]); w.wrte < 0 {
+								w.wrteObj = flagObj(ce.Args[h.wrte])
+							}
+						}
+						helpers = append(helpers, w)
+						known, changed = true, true
+						return false
+					}
+				}
+				return true
+			})
 		}
-		parents := map[ast.Node]ast.Node{}
+	}
+	type cond struct {
+		obj types.Object
+		val bool
+		e   ast.Expr // the condition itself, for conditions that are not a plain identifier
+	}
+	condOf := func(e ast.Expr, val bool) []cond {
+		e = ast.Unparen(e)
+		if u, ok := e.(*ast.UnaryExpr); ok && u.Op == token.NOT {
+			e, val = ast.Unparen(u.X), !val
+		}
+		if o := flagObj(e); o != nil {
+			return []cond{{o, val, nil}}
+		}
+		return []cond{{nil, val, e}} // some other condition
+	}
+	parentCache := map[*ast.FuncDecl]map[ast.Node]ast.Node{}
+	parentsOf := func(d *ast.FuncDecl) map[ast.Node]ast.Node {
+		if m, ok := parentCache[d]; ok {
+			return m
+		}
+		m := map[ast.Node]ast.Node{}
 		var stack []ast.Node
 		ast.Inspect(d.Body, func(x ast.Node) bool {
 			if x == nil {
@@ -6826,11 +6962,75 @@ func ruleTemporaryBatchHasCapacity(c *core.Ctx) {
 				return true
 			}
 			if len(stack) > 0 {
-				parents[x] = stack[len(stack)-1]
+				m[x] = stack[len(stack)-1]
 			}
 			stack = append(stack, x)
 			return true
 		})
+		parentCache[d] = m
+		return m
+	}
+	// conditions that hold at a node: enclosing ifs, and ifs earlier in an enclosing block whose branch leaves
+	condsIn := func(d *ast.FuncDecl, x ast.Node) []cond {
+		parents := parentsOf(d)
+		var out []cond
+		for cur := x; cur != nil; cur = parents[cur] {
+			par := parents[cur]
+			switch pp := par.(type) {
+			case *ast.IfStmt:
+				if cur == ast.Node(pp.Body) {
+					out = append(out, condOf(pp.Cond, true)...)
+				} else if cur == pp.Else {
+					out = append(out, condOf(pp.Cond, false)...)
+				}
+			case *ast.BlockStmt:
+				for _, s := range pp.List {
+					if s == cur {
+						break
+					}
+					if ifs, ok := s.(*ast.IfStmt); ok && ifs.Else == nil && goReturns(ifs.Body.List) {
+						out = append(out, condOf(ifs.Cond, false)...)
+					}
+				}
+			case *ast.CaseClause:
+				out = append(out, cond{nil, true, nil})
+			}
+		}
+		return out
+	}
+	// the conditions under which a function runs: those at its call site when the package calls it from one place
+	callerConds := func(d *ast.FuncDecl) []cond {
+		self := info.Defs[d.Name]
+		var site ast.Node
+		var in *ast.FuncDecl
+		count := 0
+		for _, o := range c.AllDecls() {
+			if c.DeclPkg(o) != p || o.Body == nil {
+				continue
+			}
+			ast.Inspect(o.Body, func(x ast.Node) bool {
+				if ce, ok := x.(*ast.CallExpr); ok {
+					if f := core.Callee(info, ce); f != nil && types.Object(f) == self {
+						count++
+						site, in = ce, o
+					}
+				}
+				return true
+			})
+		}
+		if count != 1 {
+			return nil
+		}
+		return condsIn(in, site)
+	}
+	n := 0
+	for _, d := range c.AllDecls() {
+		if c.DeclPkg(d) != p || d.Body == nil {
+			continue
+		}
+		d := d
+		parents := parentsOf(d)
+		condsAt := func(x ast.Node) []cond { return condsIn(d, x) }
 		// all definitions of a local
 		defsOf := func(obj types.Object) []ast.Expr {
 			var out []ast.Expr
@@ -6862,49 +7062,6 @@ func ruleTemporaryBatchHasCapacity(c *core.Ctx) {
 				}
 			}
 			return v
-		}
-		// conditions that hold at a node: enclosing ifs, and ifs earlier in an enclosing block whose branch leaves
-		type cond struct {
-			obj types.Object
-			val bool
-			e   ast.Expr // the condition itself, for conditions that are not a plain identifier
-		}
-		condOf := func(e ast.Expr, val bool) []cond {
-			e = ast.Unparen(e)
-			if u, ok := e.(*ast.UnaryExpr); ok && u.Op == token.NOT {
-				e, val = ast.Unparen(u.X), !val
-			}
-			if o := identObj(info, e); o != nil {
-				return []cond{{o, val, nil}}
-			}
-			return []cond{{nil, val, e}} // some other condition
-		}
-		var condsAt func(x ast.Node) []cond
-		condsAt = func(x ast.Node) []cond {
-			var out []cond
-			for cur := x; cur != nil; cur = parents[cur] {
-				par := parents[cur]
-				switch pp := par.(type) {
-				case *ast.IfStmt:
-					if cur == ast.Node(pp.Body) {
-						out = append(out, condOf(pp.Cond, true)...)
-					} else if cur == pp.Else {
-						out = append(out, condOf(pp.Cond, false)...)
-					}
-				case *ast.BlockStmt:
-					for _, s := range pp.List {
-						if s == cur {
-							break
-						}
-						if ifs, ok := s.(*ast.IfStmt); ok && ifs.Else == nil && goReturns(ifs.Body.List) {
-							out = append(out, condOf(ifs.Cond, false)...)
-						}
-					}
-				case *ast.CaseClause:
-					out = append(out, cond{nil, true, nil})
-				}
-			}
-			return out
 		}
 		// local closures and their call sites
 		lits := map[types.Object]*ast.FuncLit{}
@@ -6983,15 +7140,15 @@ func ruleTemporaryBatchHasCapacity(c *core.Ctx) {
 			if tmp == nil {
 				return true
 			}
-			var pluralObj, writeObj types.Object
+			pluralObj, writeObj := h.pluralObj, h.wrteObj
 			if h.plural >= 0 && h.plural < len(ce.Args) {
-				pluralObj = identObj(info, ce.Args[h.plural])
+				pluralObj = flagObj(ce.Args[h.plural])
 			}
 			if h.wrte >= 0 && h.wrte < len(ce.Args) {
-				writeObj = identObj(info, ce.Args[h.wrte])
+				writeObj = flagObj(ce.Args[h.wrte])
 			}
 			for _, site := range effective(ce, 0) {
-				cs := append(condsAt(site), condsAt(ce)...)
+				cs := append(append(condsAt(site), condsAt(ce)...), callerConds(d)...)
 				excluded := false
 				for _, k := range cs {
 					if k.obj != nil && (k.obj == writeObj && k.val || k.obj == pluralObj && !k.val) {
